@@ -96,7 +96,7 @@ pub fn generate(seed: u64, n: usize, _thorough: bool, _corpus: Option<&str>) -> 
     let mut r = Rng::new(seed).fork();
     let mut out = vec![];
     for i in 0..n {
-        let cfg = ModelCfg { max_vars: 3, depth: 2, logic: true, piecewise: true, unbounded: false, fractional: false, strict_cmp: false };
+        let cfg = ModelCfg { max_vars: 3, depth: 2, logic: true, piecewise: true, unbounded: false, fractional: false, strict_cmp: false, hostile: false };
         let nv = 1 + r.below(3);
         let names = ["x", "y", "z", "w"];
         let mut ds: Vec<VarDecl> = (0..nv).map(|k| {
